@@ -23,15 +23,17 @@ CONSTANTS Shard, NShards, EmitVectors,
 VARIABLES E, wl, phase
 vars == <<E, wl, phase>>
 
-EdgeIds == {"doc_on_alias", "f_direct", "f_list", "f_map_nullable", "parent", "subtypes", "f_alias", "doc_type", "doc_field",
+EdgeIds == {"doc_namesake", "doc_on_alias", "f_direct", "f_list", "f_map_nullable", "parent", "subtypes", "f_alias", "doc_type", "doc_field",
             "doc_route_on_type", "cross_ns", "tag_default", "doc_route_on_route", "ns_doc", "route_err",
             \* not a dependency edge but a way of writing the route signatures: r3, r4 and q1 name their type inside
             \* Map(String, .), List(Map(String, .)) and List(.)? as RESULT instead of naming it as argument.  Edges does
             \* not mention it: wrapping a type in containers does not change what a route depends on.
             "io_wrapped"}
 
-Types  == {"S1", "S2", "S3", "S4", "S5", "S6", "S7", "S8", "U1", "T1"}
-NsOf(n) == IF n \in {"T1", "q1"} THEN "nsb" ELSE "nsa"
+\* T2 is a struct of nsb that is WRITTEN S7, like the struct S7 of nsa; the doc of T1's field is, letter for letter, the doc
+\* of S3's field (":field:`S7.x`"): the same words mean nsb's S7 in nsb and nsa's S7 in nsa
+Types  == {"S1", "S2", "S3", "S4", "S5", "S6", "S7", "S8", "U1", "T1", "T2"}
+NsOf(n) == IF n \in {"T1", "T2", "q1"} THEN "nsb" ELSE "nsa"
 \* q1 is the route of nsb; in the spec text it is WRITTEN r3, like the route r3 of nsa: a route is identified by its
 \* namespace, name and version, not by name and version alone
 Routes == {"r1", "r3", "q1", "r4"}
@@ -50,6 +52,7 @@ Edges(e) ==
     (IF "doc_on_alias" \in e THEN {<<"A1", "S8">>} ELSE {}) \cup       \* the doc of alias A1 mentions :type:`S8`
     (IF "doc_type" \in e THEN {<<"S4", "S6">>} ELSE {}) \cup
     (IF "doc_field" \in e THEN {<<"S3", "S7">>} ELSE {}) \cup
+    (IF "doc_namesake" \in e THEN {<<"T1", "T2">>} ELSE {}) \cup
     (IF "doc_route_on_type" \in e THEN {<<"U1", "r3">>} ELSE {}) \cup
     (IF "cross_ns" \in e THEN {<<"S8", "T1">>} ELSE {}) \cup
     (IF "tag_default" \in e THEN {<<"S6", "U1">>} ELSE {}) \cup
